@@ -1,7 +1,7 @@
 (** * C15: uniform entry points for the correspondence check (float instance).
     Every sampler is normalised to [stream -> option (values, draws consumed)]. *)
 From Coq Require Import ZArith List Floats.
-From Celer Require Import Base.Num Base.NumF Base.FloatFun Base.Stream Base.Vec3 C15.Samplers C15.Eloss.
+From Celer Require Import Base.Num Base.NumF Base.FloatFun Base.Stream Base.Vec3 C15.Samplers C15.Eloss C15.ElossDelta.
 Import ListNotations.
 
 Definition fin {A} (f : A -> list float) (s : list float) (r : option (A * list float))
@@ -39,3 +39,6 @@ Definition run_elurban (me sc b0 b1 x0 x1 xi : float) s :=
 Definition run_elurban_ctor (i li b0 b1 l0 l1 f0 f1 mean me tmb bsq : float) :=
   let '(u, br) := urban_construct (T:=float) (UrbanMat i li b0 b1 l0 l1 f0 f1) mean me tmb bsq in
   ([ub_max_energy u; ub_scaling u; ub_be0 u; ub_be1 u; ub_xs0 u; ub_xs1 u; ub_xs_ion u], br).
+
+(** EnergyLossDeltaDistribution *)
+Definition run_eldelta (mean : float) s := fin (fun x => [x]) s (eloss_delta (T:=float) mean s).
